@@ -50,6 +50,13 @@ ROOT_GUARD_RUNTIME = {
 }
 
 
+# general-purpose helpers that allocate in the permanent root_guard: who may call them after construction
+ROOT_HELPER_RUNTIME_CALLERS = {
+    "interpreter::Interpreter::create_native_function": {"interpreter::Interpreter::create_internal_function": "functions of a registered internal native module"},
+    "interpreter::Interpreter::create_internal_function": {"interpreter::Interpreter::create_native_module_object": "functions of a registered internal native module"},
+}
+
+
 def pairing(fx, ck):
     ck.rule("R1.exit-pairing", "from every opener of env_guards / call_stack each path to a return passes a closer of the same stack", floor=3)
     ck.rule("R2.cross-function", "open-only / close-only functions are the discovered cross-function pairs", floor=9)
@@ -157,5 +164,18 @@ def run(tier):
         if not ok:
             ck.finding("R4.permanent-roots", "R4.permanent-roots/" + fn, F.short_span(spans[0]),
                        "`%s` roots an object in the permanent root_guard at run time: it is never freed (+1 object per execution)" % fn)
+    ck.rule("R4b.root-helper-callers", "helpers that allocate in root_guard are called after construction only by module registration", floor=2)
+    callees, callers = fx.callgraph()
+    for helper, allowed in ROOT_HELPER_RUNTIME_CALLERS.items():
+        if not ck.anchor(helper in fx.fns, "function " + helper):
+            continue
+        for c in sorted(callers.get(helper, ())):
+            if c not in runtime:
+                continue
+            ok = c in allowed
+            ck.instance("R4b.root-helper-callers", "%s <- %s" % (helper.split("::")[-1], c), F.short_span(fx.fns[c].span) if c in fx.fns else None, ok=ok)
+            if not ok:
+                ck.finding("R4b.root-helper-callers", "R4b.root-helper-callers/%s/%s" % (helper.split("::")[-1], c), F.short_span(fx.fns[c].span) if c in fx.fns else None,
+                           "`%s` runs after construction and calls `%s`, which allocates in the permanent root_guard: every call leaves an object that is never freed" % (c, helper))
     ck.assume("objects of loaded modules are meant to live as long as the interpreter (module cache)")
     return ck.finish()
